@@ -15,6 +15,7 @@ mod ntlmauth;
 mod codec;
 mod codec18;
 mod codec18_der;
+mod pdus;
 
 use std::io::{self, BufRead, Write};
 
@@ -45,6 +46,9 @@ fn dispatch(op: &str, args: &[&str]) -> String {
         "mcs" => codec18_der::op_mcs(args),
         "cssp" => codec18_der::op_cssp(args),
         "gcc18" => codec18_der::op_gcc(args),
+        "cr" => pdus::op_cr(args),
+        "core" => pdus::op_core(args),
+        "pdus" => pdus::op_pdus(args),
         _ => format!("unknown-op:{}", op),
     }
 }
